@@ -75,6 +75,9 @@ def lessthan_abstract(ssa):
     def val(e):
         return "%s/%d" % (h(e), 1 if fixed(e) else 0)
     toks, at = [], {}
+    # the dominators of every block (`Cfg::get_dominators`): a range check of an expression that reads a local counts in a dominating block
+    for b, d in zip(ssa[5], ssa[6]):
+        toks.append("D:%d:%s" % (int(b[1]), ",".join(str(int(x)) for x in d[1]) or "-"))
     for b in ssa[5]:
         blk = int(b[1])
         for st in b[5]:
@@ -324,6 +327,16 @@ def run(ctx):
             ("distinct-expressions", head + "component ra = Num2Bits(%d); component rb = Num2Bits(%d); ra.in <== a; rb.in <== b + 1; lt.in[0] <== a; lt.in[1] <== b + 2; o <== lt.out; }" % (small, small), 1, 1),
             ("distinct-literals", head + "component ra = Num2Bits(%d); component rb = Num2Bits(%d); ra.in <== a; rb.in <== b * 3; lt.in[0] <== a; lt.in[1] <== b * 5; o <== lt.out; }" % (small, small), 1, 1),
             ("equal-expressions", head + "component ra = Num2Bits(%d); component rb = Num2Bits(%d); ra.in <== a; rb.in <== b + 1; lt.in[0] <== a; lt.in[1] <== b + 1; o <== lt.out; }" % (small, small), 0, 0),
+            # a local that is assigned once, range checked in the entry block and compared in a loop; an element checked at the top of a loop
+            # body and compared inside a conditional statement of the same iteration: the check is in a dominating block (differential review
+            # f3: the same-block rule of 2b59069 reported both; 0 since 3ad27f4, 1 and 2 before)
+            ("local-checked-in-dominating-block", head + "var total = a + b; component rc = Num2Bits(%d); component rb = Num2Bits(%d); rc.in <== total; rb.in <== b; component lc[2]; "
+             "for (var i = 0; i < 2; i++) { lc[i] = LessThan(8); lc[i].in[0] <== total; lc[i].in[1] <== b; } o <== lc[0].out; }" % (small, small), 0, 1),
+            ("element-checked-earlier-in-iteration", head + "component nb[2]; component lc[2]; for (var i = 0; i < 2; i++) { nb[i] = Num2Bits(%d); nb[i].in <== x[i]; if (i > 0) { lc[i] = LessThan(8); "
+             "lc[i].in[0] <== x[i]; lc[i].in[1] <== x[i]; } } o <== a; }" % small, 0, 1),
+            # the check is on one branch only, the comparison after the join: not dominated
+            ("local-checked-on-one-branch", head + "var total = a + b; component rc = Num2Bits(%d); component rb = Num2Bits(%d); rb.in <== b; if (n == 1) { rc.in <== total; } "
+             "lt.in[0] <== total; lt.in[1] <== b; o <== lt.out; }" % (small, small), 1, 1),
             # an input that reads only a parameter of the template has one value: a range check in another block may count (0), or not (1:
             # the rule of 2b59069 before its refinement — sound, a false warning on a common shape; review 'latest2' f3)
             ("parameter-index-other-block", head + "component ra = Num2Bits(%d); component rb = Num2Bits(%d); ra.in <== x[n]; rb.in <== b; var s = 1; if (n > 2) { s = 2; } "
